@@ -11,7 +11,10 @@ use quick_xml::{
     NsReader,
 };
 
-use crate::{message::ReadError, session::SessionId};
+use crate::{
+    message::{read_text, ReadError},
+    session::SessionId,
+};
 
 use super::{xmlns, ReadXml};
 
@@ -90,7 +93,7 @@ impl ReadXml for Error {
                         && error_type.is_none() =>
                 {
                     tracing::debug!(?tag);
-                    error_type = Some(reader.read_text(tag.to_end().name())?.trim().parse()?);
+                    error_type = Some(read_text(reader, tag.to_end().name())?.trim().parse()?);
                 }
                 (ResolveResult::Bound(ns), Event::Start(tag))
                     if ns == xmlns::BASE
@@ -98,7 +101,7 @@ impl ReadXml for Error {
                         && error_tag.is_none() =>
                 {
                     tracing::debug!(?tag);
-                    error_tag = Some(reader.read_text(tag.to_end().name())?.trim().parse()?);
+                    error_tag = Some(read_text(reader, tag.to_end().name())?.trim().parse()?);
                 }
                 (ResolveResult::Bound(ns), Event::Start(tag))
                     if ns == xmlns::BASE
@@ -106,7 +109,7 @@ impl ReadXml for Error {
                         && severity.is_none() =>
                 {
                     tracing::debug!(?tag);
-                    severity = Some(reader.read_text(tag.to_end().name())?.trim().parse()?);
+                    severity = Some(read_text(reader, tag.to_end().name())?.trim().parse()?);
                 }
                 (ResolveResult::Bound(ns), Event::Start(tag))
                     if ns == xmlns::BASE
@@ -115,8 +118,7 @@ impl ReadXml for Error {
                 {
                     tracing::debug!(?tag);
                     app_tag = Some(
-                        reader
-                            .read_text(tag.to_end().name())?
+                        read_text(reader, tag.to_end().name())?
                             .trim()
                             .parse()
                             .unwrap_or_else(|_| unreachable!()),
@@ -129,8 +131,7 @@ impl ReadXml for Error {
                 {
                     tracing::debug!(?tag);
                     path = Some(
-                        reader
-                            .read_text(tag.to_end().name())?
+                        read_text(reader, tag.to_end().name())?
                             .trim()
                             .parse()
                             .unwrap_or_else(|_| unreachable!()),
@@ -143,8 +144,7 @@ impl ReadXml for Error {
                 {
                     tracing::debug!(?tag);
                     message = Some(
-                        reader
-                            .read_text(tag.to_end().name())?
+                        read_text(reader, tag.to_end().name())?
                             .trim()
                             .parse()
                             .unwrap_or_else(|_| unreachable!()),
@@ -405,30 +405,29 @@ impl ReadXml for Info {
                 (ResolveResult::Bound(ns), Event::Start(tag)) if ns == xmlns::BASE => {
                     match tag.local_name().as_ref() {
                         b"bad-attribute" => inner.push(InfoElement::BadAttribute(
-                            reader.read_text(tag.to_end().name())?.as_ref().into(),
+                            read_text(reader, tag.to_end().name())?.as_ref().into(),
                         )),
                         b"bad-element" => inner.push(InfoElement::BadElement(
-                            reader.read_text(tag.to_end().name())?.as_ref().into(),
+                            read_text(reader, tag.to_end().name())?.as_ref().into(),
                         )),
                         b"bad-namespace" => inner.push(InfoElement::BadNamespace(
-                            reader.read_text(tag.to_end().name())?.as_ref().into(),
+                            read_text(reader, tag.to_end().name())?.as_ref().into(),
                         )),
                         b"session-id" => inner.push(InfoElement::SessionId(
-                            reader
-                                .read_text(tag.to_end().name())?
+                            read_text(reader, tag.to_end().name())?
                                 .trim()
                                 .parse()
                                 .map_err(ReadError::SessionIdParse)
                                 .map(|session_id| SessionId::new(session_id).ok())?,
                         )),
                         b"ok-element" => inner.push(InfoElement::OkElement(
-                            reader.read_text(tag.to_end().name())?.as_ref().into(),
+                            read_text(reader, tag.to_end().name())?.as_ref().into(),
                         )),
                         b"err-element" => inner.push(InfoElement::ErrElement(
-                            reader.read_text(tag.to_end().name())?.as_ref().into(),
+                            read_text(reader, tag.to_end().name())?.as_ref().into(),
                         )),
                         b"noop-element" => inner.push(InfoElement::NoopElement(
-                            reader.read_text(tag.to_end().name())?.as_ref().into(),
+                            read_text(reader, tag.to_end().name())?.as_ref().into(),
                         )),
                         name => {
                             return Err(ReadError::UnknownErrorInfo(from_utf8(name)?.to_string()))
